@@ -454,10 +454,14 @@ class AsyncPettingZooVecEnv(PettingZooVecEnv):
         except (EOFError, OSError):
             # A worker process died without replying, a graceful shutdown is impossible
             terminate = True
-        except Exception as err:
-            # The pending call itself failed: the error has been reported (and the worker
-            # that raised it shut down) by `_raise_if_errors`, the others are closed below
+        except BaseException as err:
+            # The pending call itself failed (this includes a `KeyboardInterrupt` raised
+            # inside a sub-environment): the error has been reported (and the worker that
+            # raised it shut down) by `_raise_if_errors`, the others are closed below
             logger.error(f"Pending call raised `{err!r}` while closing.")
+
+        # The time budget also covers the shutdown handshake and the joins below
+        end_time = None if timeout is None else time.perf_counter() + timeout
 
         if not terminate:
             try:
@@ -467,6 +471,12 @@ class AsyncPettingZooVecEnv(PettingZooVecEnv):
 
                 for pipe in self.parent_pipes:
                     if (pipe is not None) and (not pipe.closed):
+                        if end_time is not None and not pipe.poll(
+                            max(end_time - time.perf_counter(), 0)
+                        ):
+                            # No acknowledgement in time (a sub-environment is stuck)
+                            terminate = True
+                            break
                         pipe.recv()
             except (EOFError, OSError):
                 # Broken pipe: a worker process is already dead, terminate the others
@@ -481,6 +491,11 @@ class AsyncPettingZooVecEnv(PettingZooVecEnv):
             if pipe is not None:
                 pipe.close()
         for process in self.processes:
+            if end_time is not None:
+                process.join(max(end_time - time.perf_counter(), 0))
+                if process.is_alive():
+                    # Still busy after the time budget: do not wait for it any longer
+                    process.terminate()
             process.join()
 
     def _poll_pipe_envs(self, timeout: Optional[float] = None) -> bool:
